@@ -44,7 +44,7 @@ def build(chk):
     upm = eng.method('uniform_penalty_method', first_param='v1::Instance')
     B, rd = Build(chk), Rd(chk)
     KINDS = ['unset', 'constant', 'linear1', 'linear2', 'quadratic']
-    chk.bounds = {'instance': 'variables {1,4,9} listed ascending or descending, or {3,4,9} listed as 4,9,3; 0-2 active and 0-1 previously removed constraints; constraint functions: ' + ', '.join(KINDS) +
+    chk.bounds = {'instance': 'variables {1,4,9} listed ascending or descending, or {3,4,9} listed as 4,9,3; 0-2 active (ids 20,25 listed in either order) and 0-1 previously removed constraints; constraint functions: ' + ', '.join(KINDS) +
                   '; objective absent / linear / quadratic; one dependency entry; sense symbolic', 'coefficients': 'objective: 0 or magnitude in [2^-4, 2^4]; constraint functions: positive in [2^-4, 2^4]',
                   'ids in functions': 'three id patterns per constraint (distinct / repeated / swapped)', 'sense and equalities': 'fully symbolic 32-bit integers'}
     chk.assumptions += ['R-model; objective compared coefficient-wise up to 64*2^16*EPSILON', 'the sum of squared violations ranges over the active constraints of the input '
@@ -58,7 +58,9 @@ def build(chk):
             VARS = VAR_ORDERS[P.choose(len(VAR_ORDERS))]
             idsets = [[VARS[0], VARS[1]], [VARS[1], VARS[1]], [VARS[2], VARS[0]]][P.choose(3)]
             obj = fn_of_kind(chk, P, objkind, 'o', 'signed', [VARS[1], VARS[2]])
-            cons = [Con(20 + 5 * i, P.bv(f'eq{i}', bits=32), fn_of_kind(chk, P, k, f'g{i}', 'positive', idsets if i == 0 else idsets[::-1]),
+            # constraint ids listed ascending or descending (the list order of a message is not sorted by id)
+            cids = [20, 25] if (len(kinds) < 2 or P.choose(2) == 0) else [25, 20]
+            cons = [Con(cids[i], P.bv(f'eq{i}', bits=32), fn_of_kind(chk, P, k, f'g{i}', 'positive', idsets if i == 0 else idsets[::-1]),
                         name=f'c{i}', subscripts=[i]) for i, k in enumerate(kinds)]
             rems = [Rem(Con(7, LE, fn_of_kind(chk, P, 'linear1', 'r', 'signed', [VARS[2]]), name='old'), reason='earlier', params=[('a', 'b')]) for _ in range(nrem)]
             dep = fn_of_kind(chk, P, 'linear1', 'd', 'positive', [VARS[0]])
